@@ -264,6 +264,9 @@ class JSON(Filetype):
                    f'(char {de.pos})'
         except UnicodeDecodeError as ue:
             return f'Error parsing {os.path.basename(path)}: {ue!s}'
+        except (RecursionError, ValueError) as e:
+            # brackets nested too deeply for the parser, or an integer literal with too many digits
+            return f'Error parsing {os.path.basename(path)}: {e!s}'
 
     def get_default_formatter(self) -> JSONFormatter:
         return JSONFormatter.DEFAULT_INSTANCE
@@ -290,7 +293,7 @@ class JSON5(Filetype):
     def build_tree_handling_errors(self, path: str, options: Optional[BuildOptions] = None) -> Union[str, TreeNode]:
         try:
             return self.build_tree(path=path, options=options)
-        except ValueError as ve:
+        except (ValueError, RecursionError) as ve:
             return f'Error parsing {os.path.basename(path)}: {ve!s}'
 
     def get_default_formatter(self) -> JSONFormatter:
